@@ -9,7 +9,7 @@ CLAIMED = {
  "C02": {"text": "Every Scanner function the property is anchored in (includes, is_last, the yacc production helpers) is proved against a contract written from the property statement, for all inputs and iterations, by VCs generated from the real source; a change that breaks the denotation fails a named clause and is replayed on the real function.",
          "note": "Assumes: PLY reduces productions bottom-up/left-to-right and the lexer yields int NUMBER tokens (closed only by the bounded native complement); collaborator line_monitor abstracted; encoding assumptions of DESIGN §8.",
          "tech": TECH + " + bounded native complement through real PLY"},
- "C14": {"cat": "proof", "text": "The documented assignment table (D1-D7) is a set of postconditions on the real Equality._do_assignment/_do_assignment_new_impl, proved for all 256 qualifier subsets and all values symbolically, modularly from exact contracts on _set_variable_if/_latch_and_onchange.",
+ "C14": {"cat": "proof", "text": "The documented assignment table (D1-D7) is a set of postconditions on the real Equality._do_assignment/_do_assignment_new_impl, proved for all 256 qualifier subsets and all values symbolically, modularly from exact contracts on _set_variable_if/_latch_and_onchange. Bounded complement over the property's own finite space: every qualifier subset x value sequences x rest-matches as a real csvpath over a 3-line file (thorough: all 52224 runs).",
          "note": "Assumes [A] interface contracts: child to_value memoised per line, Matcher.get/set_variable as abstract store view, Qualified.line_matches as the onmatch look-ahead, asbool a function of its argument; AND mode; listed don't-cares unchecked.",
          "tech": TECH},
 }
